@@ -59,6 +59,12 @@ def gen(ctx):
     for k, sh in enumerate([(2, 0), (1, 0, 3), (0, 2, 0)]):
         for letters in (['it2', 'a1', 't1', 'ro'], ['a1', 'it2', 'set', 't-1'], ['abad', 'it2', 'itbad', 't0', 'a1']):
             cases.append(history_case(r, NUMTYPES[(4 * k + len(letters)) % 13], ('little', 'big')[k % 2], sh, letters))
+    # a read-only handle held open, switched to 'r+' while open, then resized and written (the renewed map must
+    # be writable): marked here, held open below
+    for k, sh in enumerate([(3,), (2, 2), (0,)]):
+        c = history_case(r, NUMTYPES[(5 * k + 2) % 13], ('big', 'little')[k % 2], sh, ['mrw', 'a1', 'set', 't-1', 'set', 'a1', 'mr', 'a1'], mode='r')
+        c['heldopen'] = True
+        cases.append(c)
     # every fourth history runs with the array held open in an open_array() context: same outcomes
     for i, c in enumerate(cases):
         if i % 4 == 3 and not any(o['op'] == 'delete' for o in c['ops']):
